@@ -60,7 +60,10 @@ type Finding struct {
 type AssumedRow struct {
 	Key       string `json:"key"`
 	Diagnosis string `json:"diagnosis"`
-	Reason    string `json:"reason"`
+	// Contains: when set, the row also covers a diagnosis of the same obligation that contains this
+	// fragment (the same reviewed cause, worded by another stage of the interpreter)
+	Contains string `json:"diagnosis_contains,omitempty"`
+	Reason   string `json:"reason"`
 }
 
 type Report struct {
@@ -215,6 +218,19 @@ func (r *Report) Finish(levelText string, assumptions []string) int {
 		if a, ok := aidx[o.Key()+"\x00"+o.Diag]; ok {
 			o.Assumed = a.Reason
 			nAssumed++
+			continue
+		}
+		matched := false
+		for i := range assumed {
+			a := &assumed[i]
+			if a.Key == o.Key() && a.Contains != "" && strings.Contains(o.Diag, a.Contains) {
+				o.Assumed = a.Reason
+				nAssumed++
+				matched = true
+				break
+			}
+		}
+		if matched {
 			continue
 		}
 		if f, ok := fidx[o.Key()+"\x00"+o.Diag]; ok {
